@@ -352,6 +352,13 @@ impl<'tcx> Cx<'tcx> {
         if let ty::FnDef(did, args) = t.kind() {
             o.push(("fn", s(self.path(*did))));
             o.push(("args", s(format!("{:?}", args))));
+            o.push(("fnargs", V::Arr(args.iter().map(|a| s(format!("{}", a))).collect())));
+            if let Ok(Some(inst)) = ty::Instance::try_resolve(tcx, tenv, *did, args) {
+                let rd = inst.def_id();
+                if rd != *did {
+                    o.push(("res", s(self.path(rd))));
+                }
+            }
             return obj(o);
         }
         if let mir::Const::Unevaluated(uv, _) = c.const_ {
